@@ -195,6 +195,7 @@ static int URI_FUNC(RemoveBaseUriImpl)(URI_TYPE(Uri) * dest,
 							if (!URI_FUNC(FixAmbiguity)(dest, memory)) {
 								return URI_ERROR_MALLOC;
 							}
+							URI_FUNC(FixEmptyTrailSegment)(dest, memory);
 	/* [18/50]	      else */
 						} else {
 							const URI_TYPE(PathSegment) * sourceSeg = absSource->pathHead;
